@@ -2,9 +2,15 @@ import RlibModel.Model.SegtreeItems
 /-!
 Line-protocol driver for engine `segtree` (properties C01, C02).
 
-Case line:  `<item> <ctor> <n> <v…> ; op ; op ; …`
+Case line:  `<item> <ctor> <n> <v…> ; op ; op ; …`      or      `const <type>`
   item  min | max | sum | minadd | maxadd | sumadd | mm | smm | aff | aa | str | flipz | flipb
         (mm = Combinator<MinAdd,MaxAdd>, smm = Combinator<Combinator<SumAdd,MinAdd>,MaxAdd>, aa = Combinator<AffHash,AffHash>)
+        the eight integer items also as `<item>:<type>` (`minadd:u8`, `mm:u32`, `min:u64`, …): the item at that element type,
+        run together with the overflow guard (`guardItem`); without a suffix: `i64`, moderate magnitudes, no guard.
+        A guarded history on which any `+`/`*`/`+=` of the code would leave the element type is outside the property's
+        domain: the whole line gets `S any`.
+  `const <type>`: the trait constants `<T as MinMax>::MIN`, `MAX`, `<T as ZeroOne>::ZERO`, `ONE` against the model's
+        `IntTy.minVal`, `IntTy.maxVal`, 0, 1 (all twelve integer types)
   value `v`, or `v@md` (`x@a:b` for aff/aa, `w@k:c` for str): an element that carries a pending modifier of its own
   ctor  new (one value) | slice | iter (n values)
   op    set i v | mod l r <modifier> | ask l r | lb l <pred> | lbr r <pred> | dbg
@@ -25,6 +31,9 @@ structure ItemIO (T M A : Type) where
   parsePred : List String → Option (A → Bool)
   dbg : T → String
   showA : A → String
+  /-- overflow flag of a value (`guardItem`); constantly `true` for the unguarded items -/
+  ok : T → Bool
+  guarded : Bool
 
 section generic
 variable {T M A : Type} (io : ItemIO T M A)
@@ -33,8 +42,9 @@ def showIdx (o : Option Nat) : String := showOpt toString o
 
 def dbgList (xs : List T) : String := "[" ++ ", ".intercalate (xs.map io.dbg) ++ "]"
 
-/-- `(raw, view, spec, new model state, new spec state)`; `none` = malformed / outside the protocol -/
-def stepOp (s : Seg T) (xs : List T) (toks : List String) : Option (String × String × String × Seg T × List T) :=
+/-- `(raw, view, spec, new model state, new spec state, no returned value carries an overflow flag)`;
+    `none` = malformed / outside the protocol -/
+def stepOp (s : Seg T) (xs : List T) (toks : List String) : Option (String × String × String × Seg T × List T × Bool) :=
   let I := io.item
   match toks with
   | ["set", i, v] =>
@@ -45,8 +55,8 @@ def stepOp (s : Seg T) (xs : List T) (toks : List String) : Option (String × St
         | .ok xs' => (".", xs')
         | .error _ => ("ood", xs)
       match s.set I i v with
-      | .ok s' => some (".", sp.1, sp.1, s', sp.2)
-      | .error e => some (e.toString, sp.1, sp.1, s, sp.2)
+      | .ok s' => some (".", sp.1, sp.1, s', sp.2, true)
+      | .error e => some (e.toString, sp.1, sp.1, s, sp.2, true)
     | _, _ => none
   | "mod" :: l :: r :: mt =>
     match parseNat? l, parseNat? r, io.parseMod mt with
@@ -55,8 +65,8 @@ def stepOp (s : Seg T) (xs : List T) (toks : List String) : Option (String × St
         | .ok xs' => (".", xs')
         | .error _ => ("ood", xs)
       match s.modify I l r m with
-      | .ok s' => some (".", sp.1, sp.1, s', sp.2)
-      | .error e => some (e.toString, sp.1, sp.1, s, sp.2)
+      | .ok s' => some (".", sp.1, sp.1, s', sp.2, true)
+      | .error e => some (e.toString, sp.1, sp.1, s, sp.2, true)
     | _, _, _ => none
   | ["ask", l, r] =>
     match parseNat? l, parseNat? r with
@@ -64,12 +74,12 @@ def stepOp (s : Seg T) (xs : List T) (toks : List String) : Option (String × St
       match Spec.ask I xs l r with
       | .ok a =>
         match s.ask I l r with
-        | .ok (x, s') => some (io.dbg x, io.showA (I.val x), io.showA a, s', xs)
-        | .error e => some (e.toString, e.toString, io.showA a, s, xs)
+        | .ok (x, s') => some (io.dbg x, io.showA (I.val x), io.showA a, s', xs, io.ok x)
+        | .error e => some (e.toString, e.toString, io.showA a, s, xs, true)
       | .error _ =>
         match s.ask I l r with
-        | .ok (x, s') => some (io.dbg x, "ood", "ood", s', xs)
-        | .error e => some (e.toString, "ood", "ood", s, xs)
+        | .ok (x, s') => some (io.dbg x, "ood", "ood", s', xs, io.ok x)
+        | .error e => some (e.toString, "ood", "ood", s, xs, true)
     | _, _ => none
   | "lb" :: l :: pt =>
     match parseNat? l, io.parsePred pt with
@@ -84,7 +94,8 @@ def stepOp (s : Seg T) (xs : List T) (toks : List String) : Option (String × St
         let ps := showListWith io.showA (q.2.1.map fun kp => I.val (Spec.aggFwd I xs l kp.1))
         let mono := Spec.monoFwd I xs l f
         some (raw, (if mono then showIdx q.1 else "nm") ++ " " ++ pv ++ (if pv == ps then " P" else " p!"),
-              (if mono then showIdx (Spec.first I xs l f) else "nm") ++ " " ++ ps ++ " P", q.2.2, xs)
+              (if mono then showIdx (Spec.first I xs l f) else "nm") ++ " " ++ ps ++ " P", q.2.2, xs,
+              q.2.1.all fun kp => io.ok kp.2)
       else none
     | _, _ => none
   | "lbr" :: r :: pt =>
@@ -98,23 +109,30 @@ def stepOp (s : Seg T) (xs : List T) (toks : List String) : Option (String × St
         let ps := showListWith io.showA (q.2.1.map fun kp => I.val (Spec.aggBwd I xs kp.1 r))
         let mono := Spec.monoBwd I xs r f
         some (raw, (if mono then showIdx q.1 else "nm") ++ " " ++ pv ++ (if pv == ps then " P" else " p!"),
-              (if mono then showIdx (Spec.last I xs r f) else "nm") ++ " " ++ ps ++ " P", q.2.2, xs)
+              (if mono then showIdx (Spec.last I xs r f) else "nm") ++ " " ++ ps ++ " P", q.2.2, xs,
+              q.2.1.all fun kp => io.ok kp.2)
       else none
     | _, _ => none
   | ["dbg"] =>
     let q := s.debug I
     -- the harness obtains the observable values by a second round of single-element asks; so does the model
     let q2 := q.2.debug I
-    some (dbgList io q.1, showListWith io.showA (q2.1.map I.val), showListWith io.showA (xs.map I.val), q2.2, xs)
+    some (dbgList io q.1, showListWith io.showA (q2.1.map I.val), showListWith io.showA (xs.map I.val), q2.2, xs,
+          q.1.all io.ok && q2.1.all io.ok)
   | _ => none
 
-def runOps (s : Seg T) (xs : List T) : List String → List String → List String → List String →
-    Option (List String × List String × List String)
-  | [], rs, vs, ss => some (rs.reverse, vs.reverse, ss.reverse)
-  | o :: os, rs, vs, ss =>
+/-- no node of the model tree carries an overflow flag (always `true` for the unguarded items) -/
+def treeOk (s : Seg T) : Bool := !io.guarded || s.t.all io.ok
+
+/-- the last component: the history stayed inside the element type (no overflow flag in the tree after any operation,
+    none on any returned value) -/
+def runOps (s : Seg T) (xs : List T) : List String → List String → List String → List String → Bool →
+    Option (List String × List String × List String × Bool)
+  | [], rs, vs, ss, ok => some (rs.reverse, vs.reverse, ss.reverse, ok)
+  | o :: os, rs, vs, ss, ok =>
     match stepOp io s xs (tokens o) with
     | none => none
-    | some (r, v, sp, s', xs') => runOps s' xs' os (r :: rs) (v :: vs) (sp :: ss)
+    | some (r, v, sp, s', xs', ok') => runOps s' xs' os (r :: rs) (v :: vs) (sp :: ss) (ok && ok' && treeOk io s')
 
 def invalid : String := answer3 "INVALID" "INVALID" "any"
 
@@ -135,9 +153,11 @@ def runCase (ctor : String) (vals : List String) (n : Nat) (ops : List String) :
       -- the constructors are specified on n ≥ 1 only (and never fail there); the model mirrors the panic of the code
       answer3 e.toString e.toString "any"
     | some (.ok s, xs) =>
-      match runOps io s xs ops ["ok"] ["ok"] ["ok"] with
+      match runOps io s xs ops ["ok"] ["ok"] ["ok"] (treeOk io s) with
       | none => invalid
-      | some (rs, vs, ss) => answer3 (" ; ".intercalate rs) (" ; ".intercalate vs) (" ; ".intercalate ss)
+      | some (rs, vs, ss, ok) =>
+        -- a history on which the code's machine arithmetic would overflow is outside the property's domain
+        answer3 (" ; ".intercalate rs) (" ; ".intercalate vs) (if ok then " ; ".intercalate ss else "any")
 
 end generic
 
@@ -280,31 +300,53 @@ def predAA : List String → Option ((Int × Int × Int) × (Int × Int × Int) 
 
 def showAff (a : Int × Int × Int) : String := s!"({a.1},{a.2.1},{a.2.2})"
 
-def ioMin : ItemIO MinI Unit Int :=
-  ⟨minItem, fun s => (plainVal? s).map MinI.mk, unitMod, predMin, MinI.dbg, toString⟩
-def ioMax : ItemIO MaxI Unit Int :=
-  ⟨maxItem, fun s => (plainVal? s).map MaxI.mk, unitMod, predMax, MaxI.dbg, toString⟩
+def okAll {T : Type} : T → Bool := fun _ => true
+
+def ioMin (ty : IntTy) : ItemIO MinI Unit Int :=
+  ⟨minItem ty, fun s => (plainVal? s).map MinI.mk, unitMod, predMin, MinI.dbg, toString, okAll, false⟩
+def ioMax (ty : IntTy) : ItemIO MaxI Unit Int :=
+  ⟨maxItem ty, fun s => (plainVal? s).map MaxI.mk, unitMod, predMax, MaxI.dbg, toString, okAll, false⟩
 def ioSum : ItemIO SumI Unit Int :=
-  ⟨sumItem, fun s => (plainVal? s).map SumI.mk, unitMod, predSum, SumI.dbg, toString⟩
-def ioMinAdd : ItemIO MinAdd Int Int :=
-  ⟨minAddItem, fun s => (intVal? s).map fun v => ⟨v.1, v.2⟩, intMod, predMin, MinAdd.dbg, toString⟩
-def ioMaxAdd : ItemIO MaxAdd Int Int :=
-  ⟨maxAddItem, fun s => (intVal? s).map fun v => ⟨v.1, v.2⟩, intMod, predMax, MaxAdd.dbg, toString⟩
+  ⟨sumItem, fun s => (plainVal? s).map SumI.mk, unitMod, predSum, SumI.dbg, toString, okAll, false⟩
+def ioMinAdd (ty : IntTy) : ItemIO MinAdd Int Int :=
+  ⟨minAddItem ty, fun s => (intVal? s).map fun v => ⟨v.1, v.2⟩, intMod, predMin, MinAdd.dbg, toString, okAll, false⟩
+def ioMaxAdd (ty : IntTy) : ItemIO MaxAdd Int Int :=
+  ⟨maxAddItem ty, fun s => (intVal? s).map fun v => ⟨v.1, v.2⟩, intMod, predMax, MaxAdd.dbg, toString, okAll, false⟩
 def ioSumAdd : ItemIO SumAdd Int (Int × Int) :=
-  ⟨sumAddItem, fun s => (intVal? s).map fun v => ⟨v.1, 1, v.2⟩, intMod, predSumAdd, SumAdd.dbg, showPairI⟩
-def ioMM : ItemIO (MinAdd × MaxAdd) Int (Int × Int) :=
-  ⟨prodItem minAddItem maxAddItem, fun s => (intVal? s).map fun v => (⟨v.1, v.2⟩, ⟨v.1, v.2⟩), intMod, predMM,
-   combDbg MinAdd.dbg MaxAdd.dbg, showPairI⟩
-def ioSMM : ItemIO ((SumAdd × MinAdd) × MaxAdd) Int (((Int × Int) × Int) × Int) :=
-  ⟨prodItem (prodItem sumAddItem minAddItem) maxAddItem,
+  ⟨sumAddItem, fun s => (intVal? s).map fun v => ⟨v.1, 1, v.2⟩, intMod, predSumAdd, SumAdd.dbg, showPairI, okAll, false⟩
+def ioMM (ty : IntTy) : ItemIO (MinAdd × MaxAdd) Int (Int × Int) :=
+  ⟨prodItem (minAddItem ty) (maxAddItem ty), fun s => (intVal? s).map fun v => (⟨v.1, v.2⟩, ⟨v.1, v.2⟩), intMod, predMM,
+   combDbg MinAdd.dbg MaxAdd.dbg, showPairI, okAll, false⟩
+def ioSMM (ty : IntTy) : ItemIO ((SumAdd × MinAdd) × MaxAdd) Int (((Int × Int) × Int) × Int) :=
+  ⟨prodItem (prodItem sumAddItem (minAddItem ty)) (maxAddItem ty),
    fun s => (intVal? s).map fun v => ((⟨v.1, 1, v.2⟩, ⟨v.1, v.2⟩), ⟨v.1, v.2⟩), intMod, predSMM,
    combDbg (combDbg SumAdd.dbg MinAdd.dbg) MaxAdd.dbg,
-   fun a => s!"(({showPairI a.1.1},{a.1.2}),{a.2})"⟩
+   fun a => s!"(({showPairI a.1.1},{a.1.2}),{a.2})", okAll, false⟩
+
+/-- the item at a narrow / unsigned element type: the same item run together with the overflow guard `G`; values and
+    modifiers must be representable in the type (`fitsV`, `fitsM`; otherwise the token is malformed, as for the harness) -/
+def guardIO {T M A : Type} (io : ItemIO T M A) (G : Guard T M) (fitsV : T → Bool) (fitsM : M → Bool) : ItemIO (T × Bool) M A :=
+  ⟨guardItem io.item G,
+   fun s => (io.parseVal s).bind fun v => if fitsV v then some (v, true) else none,
+   fun ts => (io.parseMod ts).bind fun m => if fitsM m then some m else none,
+   io.parsePred, fun x => io.dbg x.1, io.showA, fun x => x.2, true⟩
+
+def ioMinT (ty : IntTy) := guardIO (ioMin ty) noGuard (fun x => ty.fits x.v) (fun _ => true)
+def ioMaxT (ty : IntTy) := guardIO (ioMax ty) noGuard (fun x => ty.fits x.v) (fun _ => true)
+def ioSumT (ty : IntTy) := guardIO ioSum (sumGuard ty) (fun x => ty.fits x.v) (fun _ => true)
+def ioMinAddT (ty : IntTy) := guardIO (ioMinAdd ty) (minAddGuard ty) (fun x => ty.fits x.v && ty.fits x.md) ty.fits
+def ioMaxAddT (ty : IntTy) := guardIO (ioMaxAdd ty) (maxAddGuard ty) (fun x => ty.fits x.v && ty.fits x.md) ty.fits
+def ioSumAddT (ty : IntTy) := guardIO ioSumAdd (sumAddGuard ty) (fun x => ty.fits x.v && ty.fits x.md) ty.fits
+def ioMMT (ty : IntTy) := guardIO (ioMM ty) (prodGuard (minAddGuard ty) (maxAddGuard ty))
+  (fun x => ty.fits x.1.v && ty.fits x.1.md) ty.fits
+def ioSMMT (ty : IntTy) := guardIO (ioSMM ty) (prodGuard (prodGuard (sumAddGuard ty) (minAddGuard ty)) (maxAddGuard ty))
+  (fun x => ty.fits x.2.v && ty.fits x.2.md) ty.fits
+
 def ioAff : ItemIO AffHash (Int × Int) (Int × Int × Int) :=
-  ⟨affHashItem, fun s => (affVal? s).map fun v => affElem v.1 v.2, intPair, predAff, AffHash.dbg, showAff⟩
+  ⟨affHashItem, fun s => (affVal? s).map fun v => affElem v.1 v.2, intPair, predAff, AffHash.dbg, showAff, okAll, false⟩
 def ioAA : ItemIO (AffHash × AffHash) (Int × Int) ((Int × Int × Int) × (Int × Int × Int)) :=
   ⟨prodItem affHashItem affHashItem, fun s => (affVal? s).map fun v => (affElem v.1 v.2, affElem (2 * v.1 + 1) v.2),
-   intPair, predAA, combDbg AffHash.dbg AffHash.dbg, fun a => s!"({showAff a.1},{showAff a.2})"⟩
+   intPair, predAA, combDbg AffHash.dbg AffHash.dbg, fun a => s!"({showAff a.1},{showAff a.2})", okAll, false⟩
 /-- `0` / `1`, or `b@1` for an element that carries a pending flip of its own -/
 def flipVal? (s : String) : Option Flip :=
   match intVal? s with
@@ -322,36 +364,62 @@ def byteMod : List String → Option Nat
   | _ => none
 
 def ioFlipZ : ItemIO Flip Unit (Int × Int) :=
-  ⟨flipZItem, flipVal?, unitMod, predFlip, Flip.dbg "FlipZ", showPairI⟩
+  ⟨flipZItem, flipVal?, unitMod, predFlip, Flip.dbg "FlipZ", showPairI, okAll, false⟩
 def ioFlipB : ItemIO Flip Nat (Int × Int) :=
-  ⟨flipBItem, flipVal?, byteMod, predFlip, Flip.dbg "FlipB", showPairI⟩
+  ⟨flipBItem, flipVal?, byteMod, predFlip, Flip.dbg "FlipB", showPairI, okAll, false⟩
 def ioStr : ItemIO StrCat (Nat × Nat) (List Nat) :=
-  ⟨strCatItem, strVal?, natPair, predStr, StrCat.dbg, showWord⟩
+  ⟨strCatItem, strVal?, natPair, predStr, StrCat.dbg, showWord, okAll, false⟩
+
+/-- `const <type>`: what the model takes `<T as MinMax>::MIN`, `MAX`, `<T as ZeroOne>::ZERO`, `ONE` to be -/
+def constLine (ty : IntTy) : String :=
+  let s := s!"{ty.minVal} {ty.maxVal} 0 1"
+  answer3 s s s
 
 def handle (line : String) : String :=
   match splitOps line with
   | [] => badLine line
   | hdr :: ops =>
     match tokens hdr with
+    | ["const", ty] =>
+      match IntTy.parse? ty, ops with
+      | some ty, [] => constLine ty
+      | _, _ => invalid
     | item :: ctor :: n :: vals =>
       match parseNat? n with
       | none => badLine line
       | some n =>
-        match item with
-        | "min" => runCase ioMin ctor vals n ops
-        | "max" => runCase ioMax ctor vals n ops
-        | "sum" => runCase ioSum ctor vals n ops
-        | "minadd" => runCase ioMinAdd ctor vals n ops
-        | "maxadd" => runCase ioMaxAdd ctor vals n ops
-        | "sumadd" => runCase ioSumAdd ctor vals n ops
-        | "mm" => runCase ioMM ctor vals n ops
-        | "smm" => runCase ioSMM ctor vals n ops
-        | "aff" => runCase ioAff ctor vals n ops
-        | "aa" => runCase ioAA ctor vals n ops
-        | "flipz" => runCase ioFlipZ ctor vals n ops
-        | "flipb" => runCase ioFlipB ctor vals n ops
-        | "str" => runCase ioStr ctor vals n ops
-        | _ => badLine line
+        match item.splitOn ":" with
+        | [item] =>
+          match item with
+          | "min" => runCase (ioMin .i64) ctor vals n ops
+          | "max" => runCase (ioMax .i64) ctor vals n ops
+          | "sum" => runCase ioSum ctor vals n ops
+          | "minadd" => runCase (ioMinAdd .i64) ctor vals n ops
+          | "maxadd" => runCase (ioMaxAdd .i64) ctor vals n ops
+          | "sumadd" => runCase ioSumAdd ctor vals n ops
+          | "mm" => runCase (ioMM .i64) ctor vals n ops
+          | "smm" => runCase (ioSMM .i64) ctor vals n ops
+          | "aff" => runCase ioAff ctor vals n ops
+          | "aa" => runCase ioAA ctor vals n ops
+          | "flipz" => runCase ioFlipZ ctor vals n ops
+          | "flipb" => runCase ioFlipB ctor vals n ops
+          | "str" => runCase ioStr ctor vals n ops
+          | _ => badLine line
+        | [item, ty] =>
+          match IntTy.parse? ty with
+          | none => invalid
+          | some ty =>
+            match item with
+            | "min" => runCase (ioMinT ty) ctor vals n ops
+            | "max" => runCase (ioMaxT ty) ctor vals n ops
+            | "sum" => runCase (ioSumT ty) ctor vals n ops
+            | "minadd" => runCase (ioMinAddT ty) ctor vals n ops
+            | "maxadd" => runCase (ioMaxAddT ty) ctor vals n ops
+            | "sumadd" => runCase (ioSumAddT ty) ctor vals n ops
+            | "mm" => runCase (ioMMT ty) ctor vals n ops
+            | "smm" => runCase (ioSMMT ty) ctor vals n ops
+            | _ => invalid
+        | _ => invalid
     | _ => badLine line
 
 def main : IO Unit := driverMain handle
